@@ -131,6 +131,252 @@ _RC_CLAMP_MAX = '''        fl, fu = FL[0], FU[-1]
         FU[-1] = np.minimum(FUin[-1], FU[-1])
 '''
 
+# ---------------------------------------------------------------------------------------------------------------- pass 3
+_RS_STUFF_PAD = """    if p > 1:
+        shape[-1] = ln * p
+        updata1 = np.zeros(shape)
+        updata1[..., ::p] = data - m
+    else:
+        updata1 = data - m
+
+    # take care of lag by shifting with zeros:
+    nz = M // 2
+    shape[-1] = nz
+    z = np.zeros(shape)
+    updata1 = np.concatenate((z, updata1, z), axis=-1)
+"""
+
+
+def _rs_fused(total="nz + ln * p + nz", slot="nz : nz + ln * p : p"):
+    """zero stuffing and lag padding in ONE zero buffer (for p > 1)"""
+    return f"""    nz = M // 2
+    if p > 1:
+        shape[-1] = {total}
+        updata1 = np.zeros(shape)
+        updata1[..., {slot}] = data - m
+    else:
+        shape[-1] = nz
+        z = np.zeros(shape)
+        updata1 = np.concatenate((z, data - m, z), axis=-1)
+"""
+
+
+_RS_RETURN = """    if t is None:
+        if getfir:
+            return RData, fir
+        return RData
+    tnew = np.arange(n) * (t[1] - t[0]) * ln / n + t[0]
+    if getfir:
+        return RData, tnew, fir
+    return RData, tnew
+"""
+
+_RS_RETURN_GEN = """    tnew = None if t is None else np.arange(n, dtype=float) * (t[1] - t[0]) * ln / n + t[0]
+    out = tuple(x for x, wanted in ((RData, True), (tnew, t is not None), (fir, getfir)) if wanted)
+    return out[0] if len(out) == 1 else out
+"""
+
+_RS_LAG_CLOSURE = """    half = M // 2
+
+    def _padded(x):
+        z = np.zeros(shape[:-1] + [half])
+        return np.concatenate((z, x, z), axis=-1)
+
+    delagged = lambda y: y[..., 2 * half :]
+    updata = delagged(signal.lfilter(fir, 1, _padded(updata1), axis=-1))
+
+    # downsample:
+    n = int(np.ceil(ln * p / q))
+    if q > 1:
+        RData = updata[..., ::q] + m
+    else:
+        RData = updata + m
+"""
+
+_AREA_ARMS = """            if abs(s + 1.0) < 1e-5:
+                # happens when p2/p1 = f1/f2
+                #   slope = -10*log10(2) db/octave
+                intarea = p1 * f1 * np.log(f2 / f1)
+            else:
+                intarea = (f2 * p2 - f1 * p1) / (s + 1.0)
+            _area[j] += intarea
+"""
+
+_AREA_LAMBDAS = """            general = lambda: (f2 * p2 - f1 * p1) / (s + 1.0)
+            limit = lambda: p1 * f1 * np.log(f2 / f1)
+            _area[j] += limit() if abs(s + 1.0) < 1e-5 else general()
+"""
+
+_RC_TABLE = """    ca = np.vstack((np.zeros((1, cols)), np.cumsum(Df * P, axis=0)))
+    Fa = np.hstack((FLin[0], FUin))
+"""
+
+_RC_TABLE_PREALLOC = """    ca = np.zeros((len(F) + 1, cols))
+    np.cumsum(Df * P, axis=0, out=ca[1:])
+    Fa = np.empty(len(F) + 1)
+    Fa[0] = FLin[0]
+    Fa[1:] = FUin
+"""
+
+_RC_STORES = """        cal[:, i] = np.interp(FL, Fa, ca[:, i])
+        cau[:, i] = np.interp(FU, Fa, ca[:, i])
+"""
+
+_RC_VIEWS = """        lo_col, hi_col = cal[:, i], cau[:, i]
+        lo_col[:] = np.interp(FL, Fa, ca[:, i])
+        hi_col[:] = np.interp(FU, Fa, ca[:, i])
+"""
+
+_RC_GEN = """    cal, cau = (
+        np.column_stack([np.interp(edges, Fa, ca[:, i]) for i in range(cols)])
+        for edges in (FL, FU)
+    )
+"""
+
+_NB_NEAR_LOOP = """        for j in range(1, lnew):
+            v = tnew[j]
+
+            for i in range(i, lold):
+                if told[i] >= v:
+                    break
+
+            if i > 0 and v - told[i - 1] <= told[i] - v:
+                index[j] = i - 1
+            else:
+                index[j] = i
+
+        return index
+"""
+
+
+def _nb_near(test="told[i] >= v", tie="<="):
+    return f"""        last = lold - 1
+        for j, v in enumerate(tnew[1:], 1):
+            while i < last and not ({test}):
+                i += 1
+            index[j] = i - 1 if (i > 0 and v - told[i - 1] {tie} told[i] - v) else i
+
+        return index
+"""
+
+
+_NB_PREV_LOOP = """        for j in range(1, lnew):
+            v = tnew[j]
+
+            for i in range(i, lold):
+                if told[i] > v:
+                    break
+            else:
+                i = lold
+
+            if i > 0:
+                index[j] = i - 1
+            else:
+                index[j] = i
+
+        return index
+"""
+
+
+def _nb_prev(test="told[i] > v"):
+    return f"""        j = 1
+        while j < lnew:
+            v = tnew[j]
+            while True:
+                if i == lold or {test}:
+                    break
+                i += 1
+            index[j] = max(i - 1, 0)
+            j += 1
+
+        return index
+"""
+
+
+_FX_DISPATCH = """        index = _find_closest_previous_times(told - dt * previous_value_tol, tnew)
+    else:
+        index = _find_closest_times(told, tnew)
+"""
+
+_FX_DISPATCH_LAMBDA = """        search = lambda tn: _find_closest_previous_times(told - dt * previous_value_tol, tn)
+    else:
+        search = lambda tn: _find_closest_times(told, tn)
+    index = search(tnew)
+"""
+
+_FX_RETURN = """    return _return(
+        tnew, newdata, alldrops, sr_stats, tp, getall, return_ndarray, despike_info
+    )
+
+
+def aligntime("""
+
+_FX_RETURN_STAR = """    ret_args = (tnew, newdata, alldrops, sr_stats, tp)
+    ret_opts = dict(getall=getall, return_ndarray=return_ndarray, despike_info=despike_info)
+    return _return(*ret_args, **ret_opts)
+
+
+def aligntime("""
+
+
+_RS_PAD_CAT = """    shape[-1] = nz
+    z = np.zeros(shape)
+    updata1 = np.concatenate((z, updata1, z), axis=-1)
+"""
+
+
+def _rs_np_pad(back="nz"):
+    return f"""    updata1 = np.pad(updata1.astype(np.result_type(updata1, float), copy=False), [(0, 0)] * (updata1.ndim - 1) + [(nz, {back})])
+"""
+
+
+_AREA_HEAD = """    for i in range(Freq.size - 1):
+        f1 = Freq[i]
+        f2 = Freq[i + 1]
+"""
+
+_RC_PAIR_LOOP = """    for i, curve in zip(range(cols), ca.T):
+        for dest, edges in ((cal, FL), (cau, FU)):
+            dest[:, i] = np.interp(edges, Fa, curve)
+"""
+
+_IP_ARMS = """    if linear:
+        ifunc = interp1d(
+            Freq, PSD, axis=0, bounds_error=False, fill_value=0, assume_sorted=True
+        )
+        psdfull = ifunc(freq)
+    else:
+        ifunc = interp1d(
+            np.log(Freq),
+            np.log(PSD),
+            axis=0,
+            bounds_error=False,
+            fill_value=0,
+            assume_sorted=True,
+        )
+        psdfull = ifunc(np.log(freq))
+"""
+
+
+def _ip_scale(other="np.log"):
+    return f"""    scale = (lambda x: x) if linear else {other}
+    ifunc = interp1d(
+        scale(Freq), scale(PSD), axis=0, bounds_error=False, fill_value=0, assume_sorted=True
+    )
+    psdfull = ifunc(scale(freq))
+    if not linear:
+"""
+
+
+_RS_RETURN_DICT = """    ret = {"data": RData}
+    if t is not None:
+        ret["t"] = np.arange(n) * (t[1] - t[0]) * ln / n + t[0]
+    if getfir:
+        ret["fir"] = fir
+    return RData if len(ret) == 1 else tuple(ret.values())
+"""
+
+
 RECIPES = [
     # ------------------------------------------------------------------ neutral: the rules are blind to these
     ("C19", "neutral", [], P, _AREA_LOOPS, _AREA_SWAPPED, "area: column loop outside, segments as range(1, len), or-form of the selector with the general arm first, continue"),
@@ -196,7 +442,7 @@ RECIPES = [
     ("C19", "break", ["C19-R5"], D, "    # build a best-fit index by finding closest new time (no\n",
      "    if len(tp) == 2:\n        return _return(told, olddata, alldrops, sr_stats, tp, getall, return_ndarray, despike_info)\n    # build a best-fit index by finding closest new time (no\n",
      "fixtime: input returned as it is when there are no turning points"),
-    ("C19", "break", ["C19-R5"], D, "        index = np.searchsorted(told, tnew) - 1\n        index[index < 0] = 0", "        index = np.searchsorted(told, tnew)\n        index[index < 0] = 0",
+    ("C19", "break", ["C19-R5"], D, "        index = np.searchsorted(told, tnew, side=\"right\") - 1\n        index[index < 0] = 0", "        index = np.searchsorted(told, tnew, side=\"right\")\n        index[index < 0] = 0",
      "fixtime: previous-sample search returns the next sample"),
     ("C19", "break", ["C19-R5"], D, "index = _find_closest_previous_times(told - dt * previous_value_tol, tnew)", "index = _find_closest_previous_times(told + dt * previous_value_tol, tnew)",
      "fixtime: tolerance of the previous-sample search applied with the wrong sign"),
@@ -218,7 +464,7 @@ RECIPES = [
      "    elif len(tnew) == len(told) and np.array_equal(told, tnew):\n        index = np.arange(len(told))\n    else:\n        index = _find_closest_times(told, tnew)",
      "fixtime: one-to-one fast path established by an element-wise comparison of old and new times"),
     ("C19", "neutral", [], D, "        index = _find_closest_times(told, tnew)", "        index = _find_closest_times(tnew=tnew, told=told)", "fixtime: search called with keywords in the other order"),
-    ("C19", "neutral", [], D, "        index = np.searchsorted(told, tnew) - 1\n        index[index < 0] = 0\n        return index", "        return np.clip(np.searchsorted(told, tnew) - 1, 0, None)",
+    ("C19", "neutral", [], D, "        index = np.searchsorted(told, tnew, side=\"right\") - 1\n        index[index < 0] = 0\n        return index", "        return np.clip(np.searchsorted(told, tnew, side=\"right\") - 1, 0, None)",
      "fixtime: previous-sample search clamped with np.clip"),
     ("C19", "neutral", [], D, "        tnew += delt\n    return tnew, tp", "        tnew = tnew + delt\n    return tnew, tp", "fixtime: alignment shift by rebinding instead of in place"),
     ("C19", "neutral", [], D, "        tnew += t1\n", "        tnew = tnew + t1\n", "fixtime: base shift by rebinding instead of in place"),
@@ -230,4 +476,73 @@ RECIPES = [
     ("C19", "break", ["C19-R5"], D, "            if i > 0 and v - told[i - 1] <= told[i] - v:\n                index[j] = i - 1", "            if i > 0 and v - told[i - 1] <= told[i] - v:\n                index[j] = i + 1",
      "fixtime: numba variant steps forward instead of back"),
     ("C19", "break", ["C19-R5"], "pyyeti/dsp.py", "        index = np.searchsorted(told, tnew, side=\"right\") - 1\n", "        index = np.searchsorted(told, tnew) - 1\n", "previous-sample search with the left insertion point (finding F18 re-introduced)"),
+    # ------------------------------------------------------------------ pass 3: the array that is filtered is read as a layout; finite-world execution of while loops; idioms
+    ("C19", "neutral", [], D, _RS_STUFF_PAD, _rs_fused(), "resample: zero stuffing and lag padding fused into one zero buffer, slots nz : nz + ln p : p"),
+    ("C19", "neutral", [], D, _RS_STUFF_PAD, _rs_fused(slot="nz:-nz:p"), "resample: one zero buffer, slots counted from both ends (nz:-nz:p)"),
+    ("C19", "break", ["C19-R3"], D, _RS_STUFF_PAD, _rs_fused(slot="nz + 1 : nz + 1 + ln * p : p"), "resample: one zero buffer, samples one slot late"),
+    ("C19", "break", ["C19-R3"], D, _RS_STUFF_PAD, _rs_fused(total="nz + ln * p"), "resample: one zero buffer without room for the padding behind the signal"),
+    ("C19", "break", ["C19-R3"], D, _RS_STUFF_PAD, _rs_fused(total="nz + ln * p + nz + 1", slot="nz + 1 : nz + 1 + ln * p : p"), "resample: one zero buffer, one zero too many in front"),
+    ("C19", "break", ["C19-R3"], D, _RS_STUFF_PAD, _rs_fused(slot="nz : nz + ln * p : q"), "resample: one zero buffer, samples stored every q-th slot"),
+    ("C19", "neutral", [], D, "    updata1 = np.concatenate((z, updata1, z), axis=-1)\n", "    updata1 = np.append(np.append(z, updata1, axis=-1), z, axis=-1)\n", "resample: padding appended in two steps with np.append"),
+    ("C19", "break", ["C19-R3"], D, "    updata1 = np.concatenate((z, updata1, z), axis=-1)\n", "    updata1 = np.append(np.append(z, updata1, axis=-1), np.append(z, z, axis=-1), axis=-1)\n",
+     "resample: twice the padding behind the signal"),
+    ("C19", "neutral", [], D, "    M = 2 * pts * max(p, q)\n", "    M = (pts * max(p, q)) << 1\n", "resample: doubling written as a shift"),
+    ("C19", "neutral", [], D, "    nz = M // 2\n", "    nz = M >> 1\n", "resample: halving written as a shift"),
+    ("C19", "break", ["C19-R3"], D, "    nz = M // 2\n", "    nz = M >> 2\n", "resample: a quarter of the filter order as padding"),
+    ("C19", "neutral", [], D, "    n = int(np.ceil(ln * p / q))\n", "    n = (ln * p + q - 1) // q\n", "resample: integer ceiling-division idiom (x + q - 1) // q"),
+    ("C19", "break", ["C19-R3"], D, "    n = int(np.ceil(ln * p / q))\n", "    n = (ln * p + q) // q\n", "resample: output length one too many when q divides ln p"),
+    ("C19", "neutral", [], D, "    cutoff = min(1 / q, 1 / p) / 2\n", "    cutoff = 1 / max(q, p) / 2\n", "resample: min of the reciprocals as the reciprocal of the max"),
+    ("C19", "break", ["C19-R3"], D, "    cutoff = min(1 / q, 1 / p) / 2\n", "    cutoff = 1 / min(q, p) / 2\n", "resample: cut-off from the smaller of p, q (aliasing)"),
+    ("C19", "neutral", [], D, _RS_RETURN, _RS_RETURN_GEN, "resample: return tuple built by a filtered generator, arange with dtype=float"),
+    ("C19", "neutral", [], D, _RS_LAG, _RS_LAG_CLOSURE, "resample: padding in a closure, lag removal in a lambda"),
+    ("C19", "neutral", [], P, _AREA_ARMS, _AREA_LAMBDAS, "area: the two segment formulas as zero-argument lambdas"),
+    ("C19", "neutral", [], P, "            if abs(s + 1.0) < 1e-5:\n", "            if not (not (s + 1.0 < 1e-5) or not (s + 1.0 > -1e-5)):\n", "area: the window as a negated disjunction of negations (NaN-safe)"),
+    ("C19", "neutral", [], P, "    for i in range(Freq.size - 1):\n", "    for i in range(PSD.shape[0] - 1):\n", "area: segments counted from the rows of the PSD array"),
+    ("C19", "break", ["C19-R1"], P, "    for i in range(Freq.size - 1):\n", "    for i in range(PSD.shape[0] - 2):\n", "area: last segment skipped (count taken from the PSD rows)"),
+    ("C19", "neutral", [], P, "        psdfull[pv] = np.exp(psdfull[pv])\n", "        psdfull[pv, ...] = np.exp(psdfull[pv, ...])\n", "interp: trailing Ellipsis in the masked index"),
+    ("C19", "neutral", [], P, "        pv = (freq >= Freq[0]) & (freq <= Freq[-1])\n", "        pv = ~((freq < Freq[0]) | (freq > Freq[-1]))\n", "interp: in-range mask as the complement of out-of-range"),
+    ("C19", "break", ["C19-R2"], P, "        pv = (freq >= Freq[0]) & (freq <= Freq[-1])\n", "        pv = ~((freq <= Freq[0]) | (freq > Freq[-1]))\n", "interp: complement form that drops the first specification frequency"),
+    ("C19", "neutral", [], P, "        pv = (freq >= Freq[0]) & (freq <= Freq[-1])\n", "        pv = np.logical_and.reduce([freq >= Freq[0], freq <= Freq[-1]])\n", "interp: mask with logical_and.reduce"),
+    ("C19", "neutral", [], P, _RC_TABLE, _RC_TABLE_PREALLOC, "rescale: curve and edge table assembled block by block in preallocated arrays (cumsum with out=)"),
+    ("C19", "break", ["C19-R4"], P, _RC_TABLE, _RC_TABLE_PREALLOC.replace("np.zeros((len(F) + 1, cols))", "np.ones((len(F) + 1, cols))"), "rescale: preallocated curve does not start from zero"),
+    ("C19", "break", ["C19-R4"], P, _RC_TABLE, _RC_TABLE_PREALLOC.replace("Fa[0] = FLin[0]", "Fa[0] = F[0]"), "rescale: preallocated edge table starts at the first centre frequency"),
+    ("C19", "neutral", [], P, _RC_STORES, _RC_VIEWS, "rescale: the columns written through views"),
+    ("C19", "break", ["C19-R4"], P, _RC_STORES, _RC_VIEWS.replace("cal[:, i], cau[:, i]", "cal[:, i], cau[:, 0]"), "rescale: view of the wrong column for the upper edges"),
+    ("C19", "neutral", [], P, _RC_LOOP, _RC_GEN, "rescale: both arrays from one generator over the edge sets"),
+    ("C19", "neutral", [], P, "    Fa = np.hstack((FLin[0], FUin))\n", "    Fa = np.r_[FLin[0], FUin]\n", "rescale: edge table with np.r_"),
+    ("C19", "neutral", [], P, "np.cumsum(Df * P, axis=0)", "np.add.accumulate(Df * P, axis=0)", "rescale: cumsum as add.accumulate"),
+    ("C19", "neutral", [], P, "    msv = np.sum(ms, axis=0)\n", "    msv = np.add.reduce(ms, axis=0)\n", "rescale: sum as add.reduce"),
+    ("C19", "neutral", [], D, "        pv = abs(delta_1) <= abs(delta)\n        index[pv] -= 1\n", "        pv = abs(delta_1) <= abs(delta)\n        np.subtract(index, 1, out=index, where=pv)\n",
+     "fixtime: masked decrement as a ufunc with out= / where="),
+    ("C19", "break", ["C19-R5"], D, "        pv = abs(delta_1) <= abs(delta)\n        index[pv] -= 1\n", "        pv = abs(delta_1) <= abs(delta)\n        np.subtract(index, 1, out=index, where=~pv)\n",
+     "fixtime: ufunc decrement under the complemented mask"),
+    ("C19", "neutral", [], D, "        index = np.searchsorted(told, tnew, side=\"right\") - 1\n        index[index < 0] = 0\n",
+     "        index = np.searchsorted(told, tnew, side=\"right\")\n        index -= 1\n        np.maximum(index, 0, out=index)\n", "fixtime: previous-sample clamp with np.maximum(out=)"),
+    ("C19", "neutral", [], D, "        index[index == lold] = lold - 1\n", "        index = index.clip(max=lold - 1)\n", "fixtime: clamp with the clip method and a keyword"),
+    ("C19", "break", ["C19-R5"], D, "        index[index == lold] = lold - 1\n", "        index = index.clip(max=lold)\n", "fixtime: clip that leaves the insertion point len(told)"),
+    ("C19", "neutral", [], D, "tnew = np.arange(L) / sr + told[0]", "tnew = np.arange(0, L, 1) / sr + told[0]", "fixtime: arange with explicit start and step"),
+    ("C19", "neutral", [], D, _FX_DISPATCH, _FX_DISPATCH_LAMBDA, "fixtime: the search bound to a lambda in each arm"),
+    ("C19", "neutral", [], D, _FX_RETURN, _FX_RETURN_STAR, "fixtime: _return called with *args and **kwargs"),
+    ("C19", "neutral", [], D, _NB_NEAR_LOOP, _nb_near(), "fixtime: loop variant of the nearest search with enumerate(..., 1) and a while loop for the advance"),
+    ("C19", "break", ["C19-R5"], D, _NB_NEAR_LOOP, _nb_near(tie="<"), "fixtime: while-loop variant with the tie going to the later sample"),
+    ("C19", "break", ["C19-R5"], D, _NB_NEAR_LOOP, _nb_near(test="told[i + 1] >= v"), "fixtime: while-loop variant that stops one sample early"),
+    ("C19", "neutral", [], D, _NB_PREV_LOOP, _nb_prev(), "fixtime: loop variant of the previous-sample search as nested while loops (while True / break)"),
+    ("C19", "break", ["C19-R5"], D, _NB_PREV_LOOP, _nb_prev(test="told[i] >= v"), "fixtime: while-loop variant of the previous-sample search that takes the sample before a coinciding one (F18 in the loop variant)"),
+    ("C19", "break", ["C19-R5"], D, "            for i in range(i, lold):\n                if told[i] > v:\n                    break\n            else:\n                i = lold\n",
+     "            for i in range(i, lold):\n                if told[i] >= v:\n                    break\n            else:\n                i = lold\n",
+     "fixtime: loop variant of the previous-sample search at an exactly coinciding time (F18 in the loop variant)"),
+    ("C19", "neutral", [], D, _RS_PAD_CAT, _rs_np_pad(), "resample: padding with np.pad along the last axis (pad width built by list repetition)"),
+    ("C19", "break", ["C19-R3"], D, _RS_PAD_CAT, _rs_np_pad("nz - 1"), "resample: np.pad with one zero too few behind the signal"),
+    ("C19", "neutral", [], P, _AREA_HEAD, "    for i, (f1, f2) in enumerate(zip(Freq, Freq[1:])):\n", "area: segments from zip(Freq, Freq[1:]) (zip stops at the shorter argument)"),
+    ("C19", "break", ["C19-R1"], P, _AREA_HEAD, "    for i, (f1, f2) in enumerate(zip(Freq, Freq[2:])):\n", "area: end points two break points apart"),
+    ("C19", "neutral", [], P, _RC_LOOP, _RC_LOOP.split("    for i in range(cols):")[0] + _RC_PAIR_LOOP, "rescale: inner loop over (array, edges) pairs - the arrays written through another name"),
+    ("C19", "break", ["C19-R4"], P, _RC_LOOP, _RC_LOOP.split("    for i in range(cols):")[0] + _RC_PAIR_LOOP.replace("((cal, FL), (cau, FU))", "((cal, FU), (cau, FL))"),
+     "rescale: (array, edges) pairs crossed - band mean squares with the wrong sign"),
+    ("C19", "neutral", [], P, _IP_ARMS, _ip_scale(), "interp: the axis scaling chosen once as a callable (identity lambda / np.log)"),
+    ("C19", "break", ["C19-R2"], P, _IP_ARMS, _ip_scale("np.log10"), "interp: log10 on the way in, exp on the way out"),
+    ("C19", "neutral", [], D, _RS_RETURN, _RS_RETURN_DICT, "resample: return values collected in a dict"),
+    ("C19", "neutral", [], D, _FX_DISPATCH, "    finder = _find_closest_previous_times if hold_previous_value else _find_closest_times\n"
+     "    index = finder(told - dt * previous_value_tol if hold_previous_value else told, tnew)\n", "fixtime: the search function chosen by a conditional expression"),
+    ("C19", "break", ["C19-R5"], D, _FX_DISPATCH, "    finder = _find_closest_times if hold_previous_value else _find_closest_previous_times\n"
+     "    index = finder(told - dt * previous_value_tol if hold_previous_value else told, tnew)\n", "fixtime: the two search functions exchanged"),
 ]
